@@ -42,9 +42,8 @@ def loop_iteration_table(rep):
     at.const(0, "0")
     at.rel("0", "<", "dur")
     T = Lin.var("T")
-    at.fact_lt(Lin.num(0), T)
-    osd = Lin.var("oneSample")
-    at.fact_lt(Lin.num(0), osd)
+    at.fact_le(Lin.num(2), T)  # frame rate 1 in this harness: the step guard (timeStep * frameRate >= 2) has passed
+    osd = Lin.num(1)  # one sample at frame rate 1
     at.derived_atom("right+T", R + T)
 
     def code(I, mode):
@@ -60,9 +59,15 @@ def loop_iteration_table(rep):
             if mode == "right" and not reverse:
                 return Lin.var("foundR")
             return None
-        selfv = MockObj({"_iterZeroCrossings": PyFunc(iterz), "duration": dur, "frameRate": Lin.var("rate")})
-        env = {"__fn__": fn, fn.self_name: selfv, "leftStartTime": L, "rightStartTime": R, "timeStep": T, "oneSampleDuration": osd,
-               "targetTime": Lin.var("target"), "smallestLeft": None, "smallestRight": None}
+        selfv = MockObj({"_iterZeroCrossings": PyFunc(iterz), "duration": dur, "frameRate": Lin.num(1)})
+        env = {"__fn__": fn, fn.self_name: selfv, "timeStep": T, "targetTime": Lin.var("target")}
+        # everything before the loop (guards, hoisted locals, closures) runs first; then left/right become generic
+        for st_ in pre:
+            I.exec_stmt(st_, env)
+        env["leftStartTime"] = L
+        env["rightStartTime"] = R
+        env.setdefault("smallestLeft", None)
+        env.setdefault("smallestRight", None)
         exit_ = "fallthrough"
         try:
             I.exec_block(loop.body, env)
